@@ -11,7 +11,9 @@ EXPLANATION = (
     "for the SOCKS5-style (encode, decode, length, try_decode_at) and VMess-style (write, read) functions the checker extracts per address variant the "
     "type byte and the ordered field widths written / read along the arm and requires writer == reader (exact consumption), length helpers == the sum, "
     "the specified type byte per variant, and that the length byte and the name bytes of a domain derive from the same string. E4 names are decoded as "
-    "checked UTF-8 (no from_utf8_unchecked on wire bytes).")
+    "checked UTF-8 (no from_utf8_unchecked on wire bytes). E5 between the bytes of the wire and the Address value (both directions, followed into "
+    "workspace functions such as `impl From<SocketAddr> for Address`) only value-preserving operations occur: constructors, accessors, byte-order "
+    "conversions, error plumbing; any other call on that data path (canonicalisation, trimming, case folding, ...) is a rewrite of the address.")
 ASSUMPTIONS = ["equality decode(encode(a)) == a as values is not decided; widths, type bytes, guards and provenance are"]
 
 TYPE_BYTES = {"socks5": {"Domain": 3, "V4": 1, "V6": 4}, "vmess": {"Domain": 2, "V4": 1, "V6": 3}}
@@ -41,6 +43,73 @@ def run(ctx):
     for b in readers:
         if not any(c.method == "from_utf8_unchecked" for (_, c, _) in b.calls()):
             ctx.ob("E4", b.defp, "checked-utf8", loc(b.sp), True, "host names are decoded with checked from_utf8")
+
+
+# operations through which an address value may flow between the wire and the `Address` without being changed
+PRESERVING = {
+    # reading / writing bytes
+    "get_u8", "get_u16", "get_u32", "get_u64", "get_u128", "split_to", "split_off", "copy_to_bytes", "copy_to_slice", "chunk", "freeze", "to_vec", "to_owned",
+    "into_boxed_slice", "as_ref", "as_bytes", "as_str", "as_slice", "deref", "deref_mut", "borrow", "clone", "into", "to_string", "into_bytes", "into_owned",
+    "from_be_bytes", "to_be_bytes", "octets", "segments", "ip", "port", "len", "is_empty", "iter", "into_iter", "next", "index", "index_mut", "into_inner", "get_ref",
+    # constructors that store their arguments unchanged
+    "new", "from", "try_from", "from_utf8", "from_str", "parse", "from_bits", "to_bits",
+    # control / error plumbing (carry the value through unchanged or only build the Err side)
+    "branch", "from_residual", "map_err", "ok_or", "ok_or_else", "ok", "unwrap", "expect", "unwrap_or_default", "msg", "context",
+}
+# names that are in PRESERVING for std types only: a workspace function of that name is looked into instead
+LOOK_INTO = ("new", "from", "try_from", "parse", "from_str", "into")
+
+
+def value_path(prog, b, starts, memo, depth=0):
+    """calls the given values may derive from (flow-insensitive backward slice, followed into workspace callees' return values):
+    returns the list of (function, call name, where) that are not value-preserving"""
+    bad = []
+    _, calls, _ = b.slice_back(list(starts))
+    for (blk, c, t) in calls:
+        nm = c.method or last_seg(c.name)
+        tgt = c.target or ""
+        if tgt.startswith("octo_squirrel") and tgt in prog.bodies:
+            if depth >= 4:
+                continue
+            key = tgt
+            if key not in memo:
+                memo[key] = None      # recursion guard
+                cb = prog.bodies[tgt]
+                memo[key] = value_path(prog, cb, [0], memo, depth + 1)
+            bad += memo[key] or []
+            continue
+        if "indirect" in c.f:
+            continue
+        if nm in PRESERVING or nm.startswith("from_") or nm.startswith("as_"):
+            # `new`/`from` of std net / string types store their arguments; anything fancier has its own name
+            continue
+        if nm in ("must_use", "format", "black_box", "identity") or tgt.startswith("core::fmt") or tgt.startswith("alloc::fmt") or "anyhow" in tgt or tgt.startswith("core::panicking") or "tracing" in tgt or "log::" in tgt:
+            continue
+        bad.append((prog.display(b.defp), c.name, loc(t["sp"])))
+    return bad
+
+
+def e5(ctx, prog, encs, decs):
+    memo = {}
+    for d in decs:
+        bad = value_path(prog, d, [0], memo)
+        ctx.ob("E5", d.defp, "decoded-value-is-not-transformed", loc(d.sp), not bad,
+               "every operation between the bytes read and the returned Address stores its input unchanged" if not bad else
+               "the decoded address passes through " + "; ".join(f"{n} (in {f}, {w})" for (f, n, w) in bad[:4]) +
+               ": the Address handed to the caller is no longer the one that was encoded (normalisation / rewriting on the codec path)", ordinal=False)
+    for e in encs:
+        starts = set()
+        for (blk, c, t) in e.calls():
+            if (c.method or "") in ("put_u8", "put_u16", "put_u32", "put_u128", "put_slice", "extend_from_slice", "put") and len(t["args"]) > 1:
+                p = op_place(t["args"][1])
+                if p is not None:
+                    starts.add(p[0])
+        bad = value_path(prog, e, starts, memo) if starts else []
+        ctx.ob("E5", e.defp, "encoded-value-is-not-transformed", loc(e.sp), not bad,
+               "every byte written derives from the Address through accessors only" if not bad else
+               "bytes written to the wire pass through " + "; ".join(f"{n} (in {f}, {w})" for (f, n, w) in bad[:4]) +
+               ": what is sent is not the address that was given (normalisation / rewriting on the codec path)", ordinal=False)
+    ctx.floor("E5", "address codecs checked for value-preserving data paths", 4, len(encs) + len(decs))
 
 
 def e1(ctx, prog, bodies):
@@ -289,6 +358,7 @@ def e2_e3(ctx, prog, bodies):
     decs = [b for b in bodies if b.root == b.defp and b.argc == 1 and "Address" in b.local_ty(0) and len(variant_regions_decoder(b)[0]) == 3]
     ctx.floor("E3", "address encoders", 2, len(encs))
     ctx.floor("E3", "address decoders", 2, len(decs))
+    e5(ctx, prog, encs, decs)
     pairs = []
     for e in encs:
         style = "vmess" if "vmess" in e.defp else "socks5"
